@@ -35,6 +35,8 @@ __datatypes_constants = {}
 __datatypes_constructors = {}
 # Stores datatypes selectors, mapping to their constructor and their ids
 __datatypes_selectors = {}
+# Stores the names of functions defined by define-fun-rec / define-funs-rec
+__recursive_functions = set()
 
 
 def get_bound_symbols(term):
@@ -87,12 +89,22 @@ def collect_information(exprs):  # noqa: C901
     global __datatypes_constants
     global __datatypes_constructors
     global __datatypes_selectors
+    global __recursive_functions
     reset_information()
 
     for cmd in exprs:
         if not cmd.has_ident():
             continue
         name = cmd.get_ident()
+        if name == 'define-fun-rec':
+            if len(cmd) > 1 and cmd[1].is_leaf():
+                __recursive_functions.add(cmd[1].data)
+        if name == 'define-funs-rec':
+            if len(cmd) > 1 and not cmd[1].is_leaf():
+                for sig in cmd[1]:
+                    if not sig.is_leaf() and len(sig) > 0 \
+                       and sig[0].is_leaf():
+                        __recursive_functions.add(sig[0].data)
         if name == 'declare-const':
             if not len(cmd) == 3:
                 logging.trace(
@@ -238,6 +250,7 @@ def reset_information():
     global __datatypes_constants
     global __datatypes_constructors
     global __datatypes_selectors
+    global __recursive_functions
     __constants = {}
     __defined_functions = {}
     __definition_node_ids = set()
@@ -247,6 +260,7 @@ def reset_information():
     __datatypes_constants = {}
     __datatypes_constructors = {}
     __datatypes_selectors = {}
+    __recursive_functions = set()
 
 
 # General utilities
@@ -267,7 +281,10 @@ def is_declared(name):
     Requires that global information has been populated via
     ``collect_information``.
     """
-    return name in __sort_lookup
+    return name in __sort_lookup \
+        or name in __recursive_functions \
+        or name in __datatypes_constructors \
+        or name in __datatypes_selectors
 
 
 def introduce_variables(exprs, vars):
